@@ -188,7 +188,7 @@ def run(ctx, chk):
                 if e.kind in ('gstore', 'vstore', 'astore', 'dwrite') and (e.kind, e.site) not in seen:
                     seen.add((e.kind, e.site))
                     n_sites += 1
-                    if e.kind == 'dwrite' and e.field not in ('ceb', 'ceb_shm', 'generation', 'version'):
+                    if e.kind == 'dwrite' and e.field not in ('ceb', 'ceb_shm', 'generation', 'version', 'mapping'):
                         # a write through a pointer that is not one of the mapping pointers (e.g. MaybeUninit buffers)
                         continue
                     ok = e.kind in allowed.get(b.path, ())
